@@ -37,6 +37,7 @@ pub struct VPlan {
 // `used_ids` after decide_packs = blobs that still have to be carried over by repacking.  Removing an id from it
 // declares "this blob is safely held by a pack that stays" -- allowed ONLY for packs that remain as live
 // (unmarked or recovered) packs; a pack that is merely kept until its keep-delete time runs out is no safe holder.
+#[derive(Clone, Copy)]
 pub struct BlobId { pub _opaque: u64 }
 pub struct UsedIds { pub _opaque: u64 }
 pub open spec fn safe_holder(t: PackToDo) -> bool { t == PackToDo::Keep || t == PackToDo::Recover }
@@ -125,3 +126,62 @@ pub uninterp spec fn same_pack(a: PackId, b: PackId) -> bool;
 pub fn vpackid_eq(a: &PackId, b: &PackId) -> (r: bool) ensures r == same_pack(*a, *b), { unimplemented!() }
 #[verifier::external_body]
 pub proof fn axiom_same_pack_refl(a: PackId) ensures same_pack(a, a), {}
+
+// ---- BlobCopier::{copy_fast, copy}: how a (coalesced) range of blobs is carried over into new packs ----
+pub struct BytesC { pub data: Ghost<Seq<u8>> }
+impl BytesC {
+    #[verifier::external_body]
+    pub fn len(&self) -> (r: usize) ensures r == self.data@.len(), { unimplemented!() }
+}
+// Bytes::copy_from_slice(&data[start..end]): the slice PANICS unless start <= end <= len
+#[verifier::external_body]
+pub fn vcopy_range(data: &BytesC, start: usize, end: usize) -> (r: BytesC)
+    requires start <= end <= data.data@.len(),
+    ensures r.data@ == data.data@.subrange(start as int, end as int),
+{ unimplemented!() }
+#[derive(Clone, Copy, PartialEq, Eq, Structural)]
+pub enum FileTypeC { Config, Index, Key, Snapshot, Pack }
+// the bytes of a stored pack file / the plaintext of a ciphertext: uninterpreted
+pub uninterp spec fn PACK_BYTES(id: PackId) -> Seq<u8>;
+pub uninterp spec fn PLAIN(cipher: Seq<u8>) -> Seq<u8>;
+pub struct VSrcBackend { pub _opaque: u64 }
+impl VSrcBackend {
+    // ASSUMED backend contract (cf. C20): a ranged read returns exactly the requested range
+    #[verifier::external_body]
+    pub fn read_partial(&self, tpe: FileTypeC, id: &PackId, cacheable: bool, offset: u32, length: u32) -> (r: RusticResult<BytesC>)
+        ensures r matches Ok(b) ==> offset + length <= PACK_BYTES(*id).len() && b.data@ == PACK_BYTES(*id).subrange(offset as int, offset + length),
+    { unimplemented!() }
+    // read_encrypted_from_partial(&read_data[start..end], uncompressed_length): decrypt (+ decompress)
+    #[verifier::external_body]
+    pub fn vread_encrypted_from_range(&self, data: &BytesC, start: usize, end: usize, ul: Option<NonZeroU32>) -> (r: RusticResult<BytesC>)
+        requires start <= end <= data.data@.len(),
+        ensures r matches Ok(b) ==> b.data@ == PLAIN(data.data@.subrange(start as int, end as int)),
+    { unimplemented!() }
+}
+impl BlobType {
+    #[verifier::external_body]
+    pub fn is_cacheable(&self) -> bool { unimplemented!() }
+}
+pub struct ProgressC { pub _opaque: u64 }
+impl ProgressC {
+    #[verifier::external_body]
+    pub fn inc(&self, n: u64) { unimplemented!() }
+}
+// the destination packer.  EFFECT AS PRECONDITION: what is handed over under `id` is exactly the stored bytes (resp. the
+// plaintext of the stored bytes) of the blob that the list pairs with `id`, with that blob's lengths
+pub struct VDstPacker { pub _opaque: u64 }
+impl VDstPacker {
+    #[verifier::external_body]
+    pub fn add_raw(&self, Ghost(pack): Ghost<PackId>, Ghost(loc): Ghost<BlobLocation>,
+                   data: BytesC, id: &BlobId, data_len: u64, uncompressed_length: Option<NonZeroU32>) -> (r: RusticResult<()>)
+        requires loc.offset + loc.length <= PACK_BYTES(pack).len(),
+            data.data@ == PACK_BYTES(pack).subrange(loc.offset as int, loc.offset + loc.length),
+            data_len == loc.length, uncompressed_length == loc.uncompressed_length,
+    { unimplemented!() }
+    #[verifier::external_body]
+    pub fn add(&self, Ghost(pack): Ghost<PackId>, Ghost(loc): Ghost<BlobLocation>, data: BytesC, id: BlobId) -> (r: RusticResult<()>)
+        requires loc.offset + loc.length <= PACK_BYTES(pack).len(),
+            data.data@ == PLAIN(PACK_BYTES(pack).subrange(loc.offset as int, loc.offset + loc.length)),
+    { unimplemented!() }
+}
+pub struct BlobCopier { pub be_src: VSrcBackend, pub packer: VDstPacker, pub blob_type: BlobType }
